@@ -3,7 +3,7 @@
    and of Memory::Copy / Memory::SetToZero (Include/Memory.hpp), with the plain
    list specification.  Definitions only; proofs are in SeqProofs*.v.
 
-   The model describes the code AFTER findings D18, D19, D20, D25, D40, D41.
+   The model describes the code AFTER findings D18, D19, D20, D25, D50, D51.
 
    Heap model: a block id per allocation; a block is a list of cells or
    Freed; every read / write names block + offset (+ count) and is
